@@ -1,8 +1,106 @@
-//! Engine M: the short scripted session executed under Miri (filled in below).
+//! Engine M: a short scripted session meant to run under Miri with many seeds
+//! (`-Zmiri-many-seeds`, `-Zmiri-preemption-rate`). Miri's seed drives the OS randomness that
+//! `RandomState` draws its keys from, allocation addresses and the preemption points between the
+//! two concurrently expanding threads — without any source seam, so it also covers containers and
+//! state that bypass the hasher hook. No file I/O (Miri isolation stays on); the result is a
+//! line on stdout that the driver compares across seeds.
 
+use crate::plan::Policy;
+use crate::req::{canon, digest, lex, Mode, Request};
 use std::collections::BTreeMap;
+use std::panic::{catch_unwind, AssertUnwindSafe};
 
-pub fn cmd_script(_m: &BTreeMap<String, String>) {
-    eprintln!("script: not built yet");
-    std::process::exit(2);
+fn script_requests() -> Vec<Request> {
+    let raw: &[(&str, &str, &str)] = &[
+        (
+            "attr",
+            "Clone, Default",
+            "struct X<T, U>(#[derive_ex(Clone(bound(T : Copy)), Default(bound(U)), Debug(bound()))] T, U);",
+        ),
+        ("attr", "PartialEq, Hash", "enum E<A, B, C> { V(A, C), W { b: B } }"),
+        (
+            "derive",
+            "",
+            "#[derive_ex(Debug, Add)] struct D<'a, T, U, const N: usize>(&'a T, Vec<U>, [u8; N]);",
+        ),
+        ("attr", "Deref", "struct X(u8, u8);"),
+    ];
+    raw.iter()
+        .map(|(m, a, i)| Request {
+            mode: if *m == "attr" { Mode::Attr } else { Mode::Derive },
+            attr: a.to_string(),
+            item: i.to_string(),
+        })
+        .collect()
+}
+
+/// Digest of the output tokens, or "PANIC".
+fn expand_digest(r: &Request) -> String {
+    let (Some(attr), Some(item)) = (lex(&r.attr), lex(&r.item)) else {
+        return "INVALID".into();
+    };
+    let mode = r.mode;
+    match catch_unwind(AssertUnwindSafe(move || match mode {
+        Mode::Attr => derive_ex::verif_hooks::expand_attr(attr, item),
+        Mode::Derive => derive_ex::verif_hooks::expand_derive(item),
+    })) {
+        Ok(ts) => digest(&canon(&ts)),
+        Err(_) => "PANIC".into(),
+    }
+}
+
+pub fn cmd_script(m: &BTreeMap<String, String>) {
+    // real RandomState unless asked otherwise
+    if !m.contains_key("keyed") {
+        crate::exec::apply_policy(&Policy::Os);
+    }
+    let reqs = script_requests();
+    let mut expansions = 0usize;
+    // phase 1: the initial thread, each request once
+    let first: Vec<String> = reqs
+        .iter()
+        .map(|r| {
+            expansions += 1;
+            expand_digest(r)
+        })
+        .collect();
+    let mut violations = 0;
+    for (i, d) in first.iter().enumerate() {
+        if d == "PANIC" {
+            println!("SCRIPT VIOLATION panic in request {i} on the initial thread");
+            violations += 1;
+        }
+    }
+    // phase 2: two threads expanding concurrently, in opposite orders
+    let r1 = reqs.clone();
+    let r2: Vec<Request> = reqs.iter().rev().cloned().collect();
+    let h1 = std::thread::spawn(move || r1.iter().map(expand_digest).collect::<Vec<_>>());
+    let h2 = std::thread::spawn(move || r2.iter().map(expand_digest).collect::<Vec<_>>());
+    let d1 = h1.join().unwrap_or_default();
+    let mut d2 = h2.join().unwrap_or_default();
+    d2.reverse();
+    expansions += d1.len() + d2.len();
+    for (i, d) in first.iter().enumerate() {
+        if d1.get(i) != Some(d) {
+            println!("SCRIPT VIOLATION request {i}: initial thread {d} vs concurrent thread 1 {:?}", d1.get(i));
+            violations += 1;
+        }
+        if d2.get(i) != Some(d) {
+            println!("SCRIPT VIOLATION request {i}: initial thread {d} vs concurrent thread 2 {:?}", d2.get(i));
+            violations += 1;
+        }
+    }
+    // phase 3: the initial thread again, after the others
+    for (i, r) in reqs.iter().enumerate().take(2) {
+        expansions += 1;
+        let d = expand_digest(r);
+        if d != first[i] {
+            println!("SCRIPT VIOLATION request {i}: first {} vs re-delivery {d}", first[i]);
+            violations += 1;
+        }
+    }
+    println!(
+        "SCRIPT RESULT digest={} expansions={expansions} violations={violations}",
+        digest(&first.join(","))
+    );
 }
